@@ -52,9 +52,17 @@ def esc_triple(t):
     return "'''" + ''.join(out) + "'''"
 
 
+CM_TEXTS = ['c1', 'a comment', "it's", '{ brace }', 'Table x {', "note: 'x'", '-- sql', 'DROP TABLE t;', 'ünï 日本', '[pk]',
+            '"q"', '`e`', '#fff', '', 'two  spaces', '} ] )', 'Ref: a.b > c.d', "'''", 'x * / y']
+
+
 class Speller:
     def __init__(self, rng, opts=None):
+        import random as _random
         self.rng = rng
+        self.crng = _random.Random((opts or {}).get('comment_seed', 0))
+        self.captured = {}
+        self._ti = self._ii = 0
         o = dict(varied=True, comments=False, props=None, ref_form=None, wild_kw=False, fault=None)
         o.update(opts or {})
         self.o = o
@@ -73,6 +81,55 @@ class Speller:
             self.fault_done = True
             return True
         return False
+
+    # ---- comments (own PRNG: the base spelling does not depend on them) -------------------------------
+    def _cm(self, block=None, multiline=False):
+        """-> (source text of one comment, captured text)"""
+        t = self.crng.choice(CM_TEXTS)
+        if block is None:
+            block = self.crng.random() < 0.4
+        if block:
+            if multiline and self.crng.random() < 0.3:
+                t = t + '\n  second line'
+            pad = self.crng.choice(['', ' ', '  '])
+            return '/*' + pad + t + pad + '*/', (pad + t + pad).lstrip(' \t\r')
+        pad = self.crng.choice(['', ' ', '   '])
+        return '//' + pad + t, t
+
+    def above(self, key, p=0.35):
+        """comment lines directly above an element -> source block; records the captured text under `key`
+        (key None: the position discards comments)"""
+        if not self.o['comments'] or self.crng.random() > p:
+            return ''
+        texts, src = [], ''
+        for _ in range(self.crng.choice([1, 1, 2])):
+            s, t = self._cm(multiline=True)
+            src += s + '\n'
+            texts.append(t)
+        if key is not None:
+            self.captured.setdefault(key, {})['above'] = '\n'.join(texts)
+        return src
+
+    def trailing(self, key, slot, line_ok, p=0.3):
+        """a comment on the element's own line (slot 'c1' = before the settings, 'c2' = after them)"""
+        if not self.o['comments'] or self.crng.random() > p:
+            return ''
+        s, t = self._cm(block=None if line_ok else True)
+        self.captured.setdefault(key, {})[slot] = t
+        return ' ' + s
+
+    def discarded(self, p=0.15):
+        """a comment line at a position where the grammar skips comments"""
+        if not self.o['comments'] or self.crng.random() > p:
+            return ''
+        return self._cm(multiline=True)[0] + '\n'
+
+    def comment_of(self, key, order=('c1', 'c2', 'above')):
+        got = self.captured.get(key, {})
+        for k in order:
+            if k in got:
+                return got[k]
+        return None
 
     # ---- atoms ----------------------------------------------------------------------------------
     def coin(self, p=0.5):
@@ -135,7 +192,7 @@ class Speller:
         if k == 5:
             return '\n\n'
         if k == 6:
-            return ' \n   \n'
+            return '\n   \n'
         return '\n' if not self.o['comments'] else '\n'
 
     def ind(self):
@@ -246,9 +303,14 @@ class Speller:
         line = ''.join(parts)
         for l in legacy:
             line += ' ' + l
+        key = ('column', spec['tables'].index(t), ci)
         if st or refs or props:
+            line += self.trailing(key, 'c1', line_ok=False)
             # properties: only the first setting may be preceded by a line break in this grammar
             line += self.sp(True) + self.settings(st, allow_newlines=not props, ordered=self.merge_keep(refs, props))
+            line += self.trailing(key, 'c2', line_ok=True)
+        else:
+            line += self.trailing(key, 'c1', line_ok=True)
         return line
 
     def type_text(self, typ):
@@ -279,8 +341,13 @@ class Speller:
             st.append(self.kw('type:') + self.sp() + (self.rng.choice(['xtree', 'b-tree', 'fulltext']) if bad else self.kw(ix['type'])))
         if ix['note']:
             st.append(self.kw('note:') + self.sp() + self.string(ix['note']))
+        key = ('index', self._ti, self._ii)
         if st:
+            line += self.trailing(key, 'c1', line_ok=False)
             line += self.sp(True) + self.settings(st)
+            line += self.trailing(key, 'c2', line_ok=True)
+        else:
+            line += self.trailing(key, 'c1', line_ok=True)
         return line
 
     def note_block(self, text):
@@ -322,8 +389,9 @@ class Speller:
             extra.append(self.note_block(t['note']))
         if t['indexes']:
             blk = self.kw('indexes') + self.sp() + '{' + self.nl()
-            for ix in t['indexes']:
-                blk += self.ind() + self.index(t, ix) + self.nl()
+            for ii, ix in enumerate(t['indexes']):
+                self._ti, self._ii = ti, ii
+                blk += self.above(('index', ti, ii)) + self.ind() + self.index(t, ix) + self.nl()
             blk += self.ind() + '}'
             extra.append(blk)
         for x in extra:
@@ -334,25 +402,30 @@ class Speller:
                                           for k, v in t['props']])
         out = head + '{' + self.nl()
         for b in body:
-            out += self.ind() + b + self.nl()
-        out += '}'
+            out += self.discarded() + self.ind() + b + self.nl()
+        out += self.discarded() + '}'
         return out
 
-    def enum(self, e):
+    def enum(self, e, ei=0):
         head = self.kw('enum') + self.sp(True)
         if e['schema'] == 'public' and not self.coin(0.3):
             head += self.ident(e['name'])
         else:
             head += self.ident(e['schema']) + '.' + self.ident(e['name'])
         out = head + self.sp(True) + '{'
-        for i in e['items']:
-            out += self.nl() + self.ind() + self.ident(i['name'])
+        for ii, i in enumerate(e['items']):
+            key = ('item', ei, ii)
+            out += self.nl() + self.above(key) + self.ind() + self.ident(i['name'])
             if i['note']:
+                out += self.trailing(key, 'c1', line_ok=False)
                 out += self.sp(True) + '[' + self.sp() + self.kw('note:') + self.sp() + self.string(i['note']) + self.sp() + ']'
-        out += '\n' + (self.nl() if self.coin(0.3) else '') + '}'
+                out += self.trailing(key, 'c2', line_ok=True)
+            else:
+                out += self.trailing(key, 'c1', line_ok=True)
+        out += '\n' + (self.nl() if self.coin(0.3) else '') + self.discarded() + '}'
         return out
 
-    def ref(self, spec, r, form):
+    def ref(self, spec, r, form, ri=0):
         T = spec['tables']
 
         def side(ti, cols):
@@ -374,8 +447,13 @@ class Speller:
             if bad:
                 self._ba = True
             st.append(self.kw('delete:') + self.sp() + (self.rng.choice(['explode', 'set', 'no', 'nullify']) if bad else self.kw(r['on_delete'])))
+        key = ('ref', ri)
         if st:
+            body += self.trailing(key, 'c1', line_ok=False)
             body += self.sp(True) + self.settings(st)
+            body += self.trailing(key, 'c2', line_ok=True)
+        else:
+            body += self.trailing(key, 'c1', line_ok=True)
         name = (' ' + self.ident(r['name'])) if r['name'] else ''
         if form == 'short':
             return self.kw('ref') + name + self.sp() + ':' + self.sp() + body
@@ -584,31 +662,49 @@ def spell(spec, rng, opts=None):
     ref_order = []
     for k, i in order:
         if k == 'enum':
-            chunks.append(sp.enum(spec['enums'][i]))
+            chunks.append(sp.above(('enum', i)) + sp.enum(spec['enums'][i], i))
         elif k == 'table':
-            chunks.append(sp.table(spec, i, inline_by_col))
+            chunks.append(sp.above(('table', i)) + sp.table(spec, i, inline_by_col))
             for ci in range(len(spec['tables'][i]['columns'])):
                 for r in inline_by_col.get((i, ci), []):
                     ref_order.append(next(j for j, x in enumerate(spec['refs']) if x is r))
         elif k == 'ref':
-            chunks.append(sp.ref(spec, spec['refs'][i], forms[i]))
+            chunks.append(sp.above(('ref', i)) + sp.ref(spec, spec['refs'][i], forms[i], i))
             ref_order.append(i)
         elif k == 'group':
-            chunks.append(sp.group(spec, spec['groups'][i]))
+            chunks.append(sp.above(('group', i)) + sp.group(spec, spec['groups'][i]))
         elif k == 'sticky':
-            chunks.append(sp.sticky(spec['sticky'][i]))
+            chunks.append(sp.above(None) + sp.sticky(spec['sticky'][i]))
         else:
-            chunks.append(sp.project(spec['project']))
+            chunks.append(sp.above(('project',)) + sp.project(spec['project']))
     text = ''
     for c in chunks:
-        text += c + ('\n' if not sp.varied else rng.choice(['\n', '\n\n', ' \n\n\n']))
+        text += c + ('\n' if not sp.varied else rng.choice(['\n', '\n\n', '\n \n\n']))
     if sp.varied and rng.random() < 0.3:
-        text = rng.choice(['\n', '  \n\n', '// leading comment\n']) + text
+        lead = rng.choice(['\n', '  \n\n', '// leading comment\n'])
+        text = ('\n' if sp.o['comments'] and lead.startswith('//') else lead) + text
     if sp.varied and rng.random() < 0.3:
         text = text.rstrip('\n')
     exp['refs'] = []
     for j in ref_order:
         r = copy.deepcopy(spec['refs'][j])
         r['inline'] = forms[j] == 'inline'
+        if sp.o['comments']:
+            r['comment'] = sp.comment_of(('ref', j))
         exp['refs'].append(r)
+    if sp.o['comments']:
+        for ti, t in enumerate(exp['tables']):
+            t['comment'] = sp.comment_of(('table', ti))
+            for ci, c in enumerate(t['columns']):
+                c['comment'] = sp.comment_of(('column', ti, ci), order=('c1', 'c2'))
+            for ii, ix in enumerate(t['indexes']):
+                ix['comment'] = sp.comment_of(('index', ti, ii))
+        for ei, e in enumerate(exp['enums']):
+            e['comment'] = sp.comment_of(('enum', ei))
+            for ii, it in enumerate(e['items']):
+                it['comment'] = sp.comment_of(('item', ei, ii), order=('c2', 'c1', 'above'))
+        for gi, g in enumerate(exp['groups']):
+            g['comment'] = sp.comment_of(('group', gi))
+        if exp['project'] is not None:
+            exp['project']['comment'] = sp.comment_of(('project',))
     return text, exp, {'forms': forms, 'chunks': chunks, 'fault_done': sp.fault_done}
